@@ -97,7 +97,7 @@ def vertex_source(g, s3):
     return s3[0]
 
 
-def new_primitive(g, r, kind=None):
+def new_primitive(g, r, kind=None, vsrc=None):
     """a primitive over the geometry's current sources (None when it has no 3-component source)"""
     import numpy
     from collada import source
@@ -107,7 +107,7 @@ def new_primitive(g, r, kind=None):
         return None
     kind = kind or r.choice(['triangles', 'polylist', 'polygons', 'lines'])
     il = source.InputList()
-    vsrc = vertex_source(g, s3)
+    vsrc = vsrc if vsrc is not None else vertex_source(g, s3)
     r.choice(s3)      # (keeps the random stream independent of the choice above)
     shared = r.random() < 0.35
     off = 0
@@ -128,6 +128,9 @@ def new_primitive(g, r, kind=None):
     limit = {}
     for o, s in ins:
         limit[o] = min(limit.get(o, 10 ** 9), len(s.data))
+
+    if any(v <= 0 for v in limit.values()):
+        return None         # an empty source (empty_triangles.dae) cannot be indexed
 
     def row():
         return [r.randrange(limit[o]) for o in range(nind)]
@@ -611,6 +614,16 @@ def apply_op(doc, st, op, out):
             if srcs:
                 s = srcs[op['pos'] % len(srcs)]
                 s.data = numpy.array([qlong(r) for _ in range(s.data.size)], dtype=numpy.float32).reshape(s.data.shape)
+        elif how == 'revertex':
+            # every primitive is replaced by primitives over a new position source: Geometry.save
+            # has to re-point <vertices>
+            s = new_source(st, r, ('X', 'Y', 'Z'), r.randint(3, 5), 'newpos')
+            g.sourceById[s.id] = s
+            g.primitives[:] = []
+            for _ in range(r.choice([1, 2])):
+                p_ = new_primitive(g, r, op.get('kind'), vsrc=s)
+                if p_ is not None:
+                    g.primitives.append(p_)
         elif how == 'attr':
             g.name = r.choice(['', 'renamedgeom', 'G3', g.name])
             g.double_sided = not g.double_sided
@@ -1050,6 +1063,7 @@ def ftext(e):
 def read_prim_xml(p, vertices):
     kind = p.tag.split('}')[1]
     inputs = []
+    direct = []
     nind = 0
     for i in p.findall(T('input')):
         off = int(i.get('offset'))
@@ -1060,12 +1074,15 @@ def read_prim_xml(p, vertices):
             for sem, s in vertices[src]:
                 inputs.append([off, 'VERTEX' if sem == 'POSITION' else sem, s, st_])
         else:
+            if i.get('semantic') == 'VERTEX':
+                direct.append(src)      # a VERTEX input must go through a <vertices> element
             inputs.append([off, i.get('semantic'), src, st_])
     ps = [[int(x) for x in (e.text or '').split()] for e in p.findall(T('p'))]
     d = {'kind': kind, 'material': p.get('material'),
          'inputs': sorted(inputs, key=lambda x: (x[0], x[1], x[2], str(x[3]))),
          'index': [x for q_ in ps for x in q_], 'count': int(p.get('count'))}
     d['label'] = '%s:%s:%d' % (d['kind'], d['material'], len(d['index']))
+    d['direct_vertex'] = direct
     if kind == 'polylist':
         vc = p.find(T('vcount'))
         d['vcounts'] = [int(x) for x in (vc.text or '').split()] if vc is not None else []
@@ -1373,6 +1390,9 @@ def check_file_vs_model(pid, model, filesnap):
             if 'data' in s and not (s['count'] == len(s['data']) and s['array_ok']):
                 fail('attribute', 'geometries.sources.count', 'float_array count/accessor source of %s disagree with the data' % s['id'])
         for p in g['primitives']:
+            for src in p.get('direct_vertex', []):
+                fail('reference', 'geometries.primitives.vertices-indirection',
+                     'a VERTEX input of %s names %r directly instead of a <vertices> element' % (g['id'], src))
             for inp in p['inputs']:
                 if inp[1] == 'VERTEX' and inp[2] not in [s['id'] for s in g['sources']]:
                     fail('reference', 'geometries.primitives.inputs', 'VERTEX input of %s does not resolve through <vertices> to a source' % g['id'])
@@ -1681,9 +1701,33 @@ def shrink(case, signature, pid):
     return dict(case, ops=ops)
 
 
+def run_cv(case):
+    """collada.util._correctValInNode on a small element: children as [uid, tag, text]"""
+    from collada.util import _correctValInNode
+    from collada.common import E
+    outer = E('outer')
+    ids = {}
+    for i, (tg, tx) in enumerate(case['kids']):
+        c = E(tg) if tx is None else E(tg, tx)
+        ids[id(c)] = i + 1
+        _KEEP.append(c)
+        outer.append(c)
+    try:
+        if case['after'] is None:
+            _correctValInNode(outer, case['tag'], case['value'])
+        else:
+            _correctValInNode(outer, case['tag'], case['value'], case['after'])
+    except Exception as e:  # noqa
+        return {'error': repr(e)}
+    return {'kids': [[ids.get(id(c), 0), c.tag.split('}')[1], c.text] for i, c in enumerate(outer)]}
+
+
 def main():
     payload = json.load(sys.stdin)
     pid = payload.get('pid', 'C02')
+    if 'cv_cases' in payload:
+        json.dump([run_cv(c) for c in payload['cv_cases']], sys.stdout)
+        return
     if 'shrink' in payload:
         json.dump(shrink(payload['shrink'], payload['signature'], pid), sys.stdout)
         return
